@@ -61,7 +61,9 @@ func typeName(t reflect.Type) string {
 }
 
 func rootElem(t reflect.Type) reflect.Type {
-	for t.Kind() == reflect.Slice || t.Kind() == reflect.Ptr || t.Kind() == reflect.Array {
+	seen := map[reflect.Type]bool{} // type Tree []Tree has no root element
+	for (t.Kind() == reflect.Slice || t.Kind() == reflect.Ptr || t.Kind() == reflect.Array) && !seen[t] {
+		seen[t] = true
 		t = t.Elem()
 	}
 	return t
